@@ -513,6 +513,14 @@ func (c *Cmd) allReleased() bool {
 	return true
 }
 
+func pipeOwner(pp *pipe) (*hostPipe, bool) {
+	if pp == nil {
+		return nil, false
+	}
+	h, ok := pp.w.(*hostPipe)
+	return h, ok
+}
+
 func (c *Cmd) forceClose() {
 	for _, pp := range c.proc.pipes {
 		if pp != nil {
@@ -610,6 +618,9 @@ func (c *Cmd) Wait() error {
 	}
 	if gerr == nil {
 		for _, pp := range p.pipes {
+			if _, own := pipeOwner(pp); own {
+				continue // no copier whose error Wait could report: the host read this one itself
+			}
 			if pp != nil && pp.err != nil {
 				gerr = pp.err
 				break
